@@ -6,6 +6,7 @@ set -u
 WT=$1; NAME=$2; shift 2
 OUT=/verif/seeded/$NAME
 mkdir -p $OUT
+[ -f $OUT/meta.json ] && cp $OUT/meta.json /tmp/seed-oldmeta-$$.json
 cp $WT/_out/* $OUT/ 2>/dev/null
 cd $WT
 # bring the worktree to /repo's HEAD, keeping the seeded change (library diff re-applied on the new base)
@@ -25,7 +26,8 @@ go test -count=1 ./... > /tmp/seed-t-$$.log 2>&1 && T=ok || T=FAIL
 echo "== demo with change"
 (eval "$DEMO") > /tmp/seed-d1-$$.log 2>&1 && D1=passes || D1=fails
 echo "== demo without change"
-git stash -q -- $(git diff --name-only) ; (eval "$DEMO") > /tmp/seed-d2-$$.log 2>&1 && D2=passes || D2=fails; git stash pop -q
+# (no git stash: the stash is shared by all worktrees of a repository)
+git diff > /tmp/seed-q-$$.diff; git apply -R /tmp/seed-q-$$.diff; (eval "$DEMO") > /tmp/seed-d2-$$.log 2>&1 && D2=passes || D2=fails; git apply /tmp/seed-q-$$.diff; rm -f /tmp/seed-q-$$.diff
 echo "build=$B tests=$T demo_with_change=$D1 demo_without_change=$D2"
 RES=""
 for P in "$@"; do
@@ -43,6 +45,17 @@ import json
 m=json.load(open('$OUT/meta.json'))
 m['confirmed']={'build':'$B','existing_tests_with_change':'$T','demo_with_change':'$D1','demo_without_change':'$D2'}
 m['checks_run']='$RES'.split()
+import os
+if os.path.exists('/tmp/seed-oldmeta-$$.json'):      # keep the recorded history of earlier runs
+    o=json.load(open('/tmp/seed-oldmeta-$$.json'))
+    for k in ('first_result','final_result','closed_by'):
+        if k in o: m[k]=o[k]
+    os.remove('/tmp/seed-oldmeta-$$.json')
+caught=[r for r in m['checks_run'] if r.endswith('=caught')]
+if 'first_result' not in m:
+    m['first_result']='caught' if caught else 'missed'
+m['final_result']=('caught by '+', '.join(r.split('=')[0].replace('/',' ') for r in caught)) if caught else ('inconclusive' if any(r.endswith('inconclusive') for r in m['checks_run']) else 'missed')
+m.setdefault('closed_by','')
 json.dump(m,open('$OUT/meta.json','w'),indent=1)
 PY
 rm -f /tmp/seed-*-$$.log
